@@ -185,10 +185,11 @@ class PopenExecutor(concurrent.futures.Executor):
 
         Raises ShutdownError if the executor has been shutdown."""
 
-        if self._shutdown.is_set():
-            raise ShutdownError()
-
         with self._lock:
+            # check under the lock: shutdown() sets the flag before taking the lock
+            if self._shutdown.is_set():
+                raise ShutdownError()
+
             self._futures.append(future)
             future.start()
             return future
